@@ -77,14 +77,19 @@ def to_smt2_bounded(assumptions, goal):
 _gax_cache = {}
 
 
+OWNER = [None]       # short name of the function whose obligation is being encoded (for opaque / revealed definitions)
+
+
 def ghost_axioms(names):
     """closed assumptions (E-* items) attached to the ghost predicates an obligation mentions"""
-    from .state import GHOST_AXIOMS, State
+    from .state import GHOST_AXIOMS, State, REVEAL
     from . import spec as SP
     out = []
     for g in sorted(GHOST_AXIOMS):
         if g in names:
             for label, text, modname in GHOST_AXIOMS[g]:
+                if label in REVEAL and OWNER[0] is not None and OWNER[0] not in REVEAL[label]:
+                    continue        # opaque here: fewer assumptions, never more
                 key = (g, label, SP.BOUND[0])
                 if key not in _gax_cache:
                     st = State()
@@ -228,6 +233,7 @@ def discharge(obligs, tier='quick', cross=False, procs=None, threads=False):
             results[i] = {'name': o.name, 'verdict': 'unsat', 'backend': 'syntactic', 'seconds': 0.0, 'model': None,
                           'tried': []}
             continue
+        OWNER[0] = o.name.split('/', 1)[0].split('<', 1)[0]
         if getattr(o, 'bounded', None) is not None:
             smt2, axioms = to_smt2_bounded(o.assumptions, o.goal)
         else:
